@@ -115,13 +115,23 @@ pub fn edit_calls(v: &RVal, o: &Opts) -> Vec<Call> {
         }
     }
     // object_delete / object_pick: every subset of (keys of v + absent)
-    let mut kc: Vec<String> = match v {
-        RVal::Obj(m) => m.keys().cloned().collect(),
-        _ => vec![],
-    };
+    // candidates: two keys sorting before every other ("" and "!"), the document's keys, in the
+    // one-shot mode a key right after each of them, and one after all: requested-but-absent keys
+    // before, between and after present ones, several in a row
+    let mut kc: Vec<String> = vec!["".into(), "!".into()];
+    if let RVal::Obj(m) = v {
+        for k in m.keys() {
+            kc.push(k.clone());
+            if !o.sets {
+                kc.push(format!("{}!", k));
+            }
+        }
+    }
     kc.push("zz".into());
-    for mask in 0u32..(1 << kc.len().min(4)) {
-        let ks: BTreeSet<String> = (0..kc.len().min(4)).filter(|i| mask & (1 << i) != 0).map(|i| kc[i].clone()).collect();
+    kc.dedup();
+    let cap = kc.len().min(if o.sets { 5 } else { 7 });
+    for mask in 0u32..(1 << cap) {
+        let ks: BTreeSet<String> = (0..cap).filter(|i| mask & (1 << i) != 0).map(|i| kc[i].clone()).collect();
         let (b1, ks1) = (b.clone(), ks.clone());
         out.push(Call { label: format!("object_delete({:?})", ks), expect: ops::object_delete(v, &ks), run: Box::new(move |buf| { let r: BTreeSet<&str> = ks1.iter().map(|s| s.as_str()).collect(); jsonb::object_delete(&b1, &r, buf) }) });
         let (b1, ks1) = (b.clone(), ks.clone());
